@@ -738,7 +738,8 @@ def save_ref(vfs, R):
 
 def _minimise(hist, keep_last, pred, vfs):
     """1-minimal sub-history (fixed order, deterministic) on which pred(run, sub-history) still holds; the last call is kept
-    if keep_last.  One-step counterfactuals: a call stays only if removing it makes *this* violation disappear."""
+    if keep_last.  One-step counterfactuals: a call stays only if removing it makes the violation of *this probe* disappear
+    (every sub-history is enumerated and judged on its own as well, so nothing is masked by the reduction)."""
     hist = list(hist)
     changed = True
     while changed:
@@ -813,8 +814,8 @@ def judge(res, hist, vfs, R, record_sample=False):
         # (ii a) the call's own outcome is the outcome it has in a clean process under the same explicit settings
         res.clauses['C12.probe.call'] += 1
         if out != R.call(env_after(hist[:pos]), si):
-            def pred(r2, h2, target=out, si=si):
-                return r2.outs[-1] == target and target != R.call(env_after(h2[:-1]), si)
+            def pred(r2, h2, si=si):
+                return r2.outs[-1] != R.call(env_after(h2[:-1]), si)
 
             mh = _minimise(hist[:pos + 1], True, pred, vfs)
             mn = [NAMES[i] for i in mh]
@@ -843,7 +844,7 @@ def judge(res, hist, vfs, R, record_sample=False):
         target = run.battery[first]
 
         def pred_b(r2, h2):
-            return r2.battery[first] == target and target != R.bat(env_after(h2))[first]
+            return r2.battery[first] != R.bat(env_after(h2))[first]
 
         mh = _minimise(hist, False, pred_b, vfs)
         mn = [NAMES[i] for i in mh]
@@ -865,7 +866,7 @@ def judge(res, hist, vfs, R, record_sample=False):
         target = run.reuse[first]
 
         def pred_r(r2, h2):
-            return r2.reuse[first] == target and target != R.reu(env_after(h2))[first]
+            return r2.reuse[first] != R.reu(env_after(h2))[first]
 
         mh = _minimise(hist, False, pred_r, vfs)
         mn = [NAMES[i] for i in mh]
